@@ -18,38 +18,64 @@ variable {P : Prims} {k : Codes} {f : TFlags} {W : World P}
 structure ConnOK (k : Codes) (f : TFlags) (W : World P) (r : Role) (c : Conn P) : Prop where
   reach : ReachR k f W r c.hs
   done : c.status = .done → c.hs.ctl = .done
+  /-- when `handshake()` marks completion as its last step, the mark and the result agree -/
+  mark : f.doneMarkedLast = true → (c.marked = true ↔ c.status = .done)
 
 theorem flushEntries_hs : ∀ (l : List Entry) (c : Conn P),
-    (Conn.flushEntries k c l).hs = c.hs ∧ (Conn.flushEntries k c l).status = c.status
-  | [], c => ⟨rfl, rfl⟩
+    (Conn.flushEntries k c l).hs = c.hs ∧ (Conn.flushEntries k c l).status = c.status ∧
+    (Conn.flushEntries k c l).marked = c.marked
+  | [], c => ⟨rfl, rfl, rfl⟩
   | .msg true m :: r, c => by simp only [Conn.flushEntries]; exact flushEntries_hs r _
   | .msg false m :: r, c => by simp only [Conn.flushEntries]; exact flushEntries_hs r _
   | .ccs true :: r, c => by simp only [Conn.flushEntries]; exact flushEntries_hs r _
   | .ccs false :: r, c => by simp only [Conn.flushEntries]; exact flushEntries_hs r _
 
-theorem failLocal_ok {r : Role} {c : Conn P} (h : ConnOK k f W r c) (a : Nat) : ConnOK k f W r (Conn.failLocal k c a) :=
-  ⟨h.reach, by intro hd; simp [Conn.failLocal] at hd⟩
+theorem failLocal_ok {r : Role} {c : Conn P} (h : ConnOK k f W r c) (hrun : c.status = .running) (a : Nat) :
+    ConnOK k f W r (Conn.failLocal k c a) :=
+  ⟨h.reach, by intro hd; simp [Conn.failLocal] at hd, by
+    intro hm
+    have := (h.mark hm)
+    simp [Conn.failLocal, hrun] at this ⊢
+    exact this⟩
 
 /-- `sync` after the handshake layer moved to a reachable state -/
-theorem sync_ok {r : Role} {c : Conn P} (hr : ReachR k f W r c.hs) (hst : c.status = .running) :
-    ConnOK k f W r (Conn.sync k c) := by
+theorem sync_ok {r : Role} {c : Conn P} (hr : ReachR k f W r c.hs) (hst : c.status = .running)
+    (hmk : f.doneMarkedLast = true → c.marked = false) :
+    ConnOK k f W r (Conn.sync k f c) := by
   unfold Conn.sync
   simp only []
-  have h1 := flushEntries_hs (k := k) (c.hs.log.drop c.flushed) c
-  generalize Conn.flushEntries k c (c.hs.log.drop c.flushed) = c1 at h1
-  obtain ⟨e1, e2⟩ := h1
-  split
-  · rename_i hctl
-    exact ⟨by simpa [e1] using hr, fun _ => by simpa [e1] using hctl⟩
-  · rename_i a hctl
+  -- the early mark of the defect branch
+  have h0 : ∀ c0 : Conn P, c0 = (if (!f.doneMarkedLast && decide (c.hs.ctl = .done)) = true then { c with marked := true } else c) →
+      c0.hs = c.hs ∧ c0.status = c.status ∧ (f.doneMarkedLast = true → c0.marked = false) := by
+    intro c0 hc0
+    subst hc0
     split
-    · refine ⟨by simpa [Conn.failLocal, e1] using hr, fun hd => ?_⟩
-      simp [Conn.failLocal] at hd
-    · rename_i hns
-      exact absurd (by simp [e2, hst]) hns
-  · rename_i hn1 hn2
-    refine ⟨by simpa [e1] using hr, fun hd => ?_⟩
-    simp [e2, hst] at hd
+    · rename_i hcond
+      refine ⟨rfl, rfl, fun hm => ?_⟩
+      simp [hm] at hcond
+    · exact ⟨rfl, rfl, hmk⟩
+  generalize (if (!f.doneMarkedLast && decide (c.hs.ctl = .done)) = true then { c with marked := true } else c) = c0 at h0 ⊢
+  obtain ⟨a1, a2, a3⟩ := h0 c0 rfl
+  split
+  · refine ⟨by simpa [a1] using hr, fun hd => by simp at hd, fun hm => ?_⟩
+    simp [a3 hm]
+  · have h1 := flushEntries_hs (k := k) (c0.hs.log.drop c0.flushed) c0
+    generalize Conn.flushEntries k c0 (c0.hs.log.drop c0.flushed) = c1 at h1
+    obtain ⟨e1, e2, e3⟩ := h1
+    split
+    · rename_i hctl
+      exact ⟨by simpa [e1, a1] using hr, fun _ => by simpa [e1] using hctl, fun _ => by simp⟩
+    · rename_i a hctl
+      split
+      · refine ⟨by simpa [Conn.failLocal, e1, a1] using hr, fun hd => ?_, fun hm => ?_⟩
+        · simp [Conn.failLocal] at hd
+        · simp [Conn.failLocal, e3, a3 hm]
+      · rename_i hns
+        exact absurd (by simp [e2, a2, hst]) hns
+    · rename_i hn1 hn2
+      refine ⟨by simpa [e1, a1] using hr, fun hd => ?_, fun hm => ?_⟩
+      · simp [e2, a2, hst] at hd
+      · simp [e2, e3, a2, a3 hm, hst]
 
 theorem pump_reach {r : Role} : ∀ (n : Nat) (c : Conn P), ReachR k f W r c.hs → ReachR k f W r (Conn.pump k f W c n).hs
   | 0, c, h => h
@@ -82,75 +108,111 @@ theorem pump_status : ∀ (n : Nat) (c : Conn P), (Conn.pump k f W c n).status =
           · rw [pump_status n]
       · rfl
 
-theorem init_ok (r : Role) : ConnOK k f W r (Conn.init k W r) := by
-  show ConnOK k f W r (Conn.sync k _)
-  exact sync_ok ReachR.init rfl
+/-- a running connection is not marked complete (when the mark is the last step) -/
+theorem ConnOK.unmarked {r : Role} {c : Conn P} (h : ConnOK k f W r c) (hrun : c.status = .running) :
+    f.doneMarkedLast = true → c.marked = false := by
+  intro hm
+  have := h.mark hm
+  simp [hrun] at this
+  exact this
+
+theorem pump_marked : ∀ (n : Nat) (c : Conn P), (Conn.pump k f W c n).marked = c.marked
+  | 0, c => rfl
+  | n + 1, c => by
+    unfold Conn.pump
+    split
+    · rfl
+    · rfl
+    · split
+      · split
+        · rfl
+        · split
+          · rfl
+          · rw [pump_marked n]
+      · rfl
+
+theorem init_ok (r : Role) : ConnOK k f W r (Conn.init k f W r) := by
+  show ConnOK k f W r (Conn.sync k f _)
+  exact sync_ok ReachR.init rfl (fun _ => rfl)
 
 theorem onAlert_ok {r : Role} {c : Conn P} (h : ConnOK k f W r c) (hrun : c.status = .running) (data : Bytes) :
     ConnOK k f W r (Conn.onAlert k c data) := by
+  have hu := h.unmarked hrun
   unfold Conn.onAlert
   split
   · split
-    · exact ⟨h.reach, by intro hd; simp at hd⟩
+    · exact ⟨h.reach, by intro hd; simp at hd, fun hm => by simp [hu hm]⟩
     · split
       · split
-        · exact failLocal_ok h _
-        · exact ⟨h.reach, by intro hd; simp [hrun] at hd⟩
+        · exact failLocal_ok h hrun _
+        · exact ⟨h.reach, by intro hd; simp [hrun] at hd, fun hm => by simp [hu hm, hrun]⟩
       · split
-        · exact ⟨h.reach, by intro hd; simp at hd⟩
-        · exact failLocal_ok h _
-  · exact failLocal_ok h _
+        · exact ⟨h.reach, by intro hd; simp at hd, fun hm => by simp [hu hm]⟩
+        · exact failLocal_ok h hrun _
+  · exact failLocal_ok h hrun _
 
 theorem onCCSRecord_ok {r : Role} {c : Conn P} (h : ConnOK k f W r c) (hrun : c.status = .running) (data : Bytes) :
     ConnOK k f W r (Conn.onCCSRecord k f c data) := by
   unfold Conn.onCCSRecord
   split
-  · exact failLocal_ok h _
+  · exact failLocal_ok h hrun _
   · split
-    · exact failLocal_ok h _
+    · exact failLocal_ok h hrun _
     · split
-      · exact failLocal_ok h _
-      · exact sync_ok (ReachR.ccs h.reach) hrun
+      · exact failLocal_ok h hrun _
+      · exact sync_ok (ReachR.ccs h.reach) hrun (h.unmarked hrun)
 
 theorem onHandshakeRecord_ok {r : Role} {c : Conn P} (h : ConnOK k f W r c) (hrun : c.status = .running) (data : Bytes) :
     ConnOK k f W r (Conn.onHandshakeRecord k f W c data) := by
   unfold Conn.onHandshakeRecord
   split
-  · exact failLocal_ok h _
+  · exact failLocal_ok h hrun _
   · apply sync_ok
     · exact pump_reach _ _ h.reach
     · rw [pump_status]; exact hrun
+    · rw [pump_marked]; exact h.unmarked hrun
 
 theorem dispatch_ok {r : Role} {c : Conn P} (h : ConnOK k f W r c) (hrun : c.status = .running) (typ : Nat) (data : Bytes) :
     ConnOK k f W r (Conn.dispatch k f W c typ data) := by
   unfold Conn.dispatch
   split
-  · exact failLocal_ok h _
+  · exact failLocal_ok h hrun _
   · split
     · exact onAlert_ok h hrun _
     · split
       · exact onCCSRecord_ok h hrun _
       · split
-        · exact failLocal_ok h _
+        · exact failLocal_ok h hrun _
         · split
           · exact onHandshakeRecord_ok h hrun _
-          · exact failLocal_ok h _
+          · exact failLocal_ok h hrun _
 
-theorem headerCheck_ok {r : Role} {c c' : Conn P} (h : ConnOK k f W r c) {rec : Record}
+theorem headerCheck_ok {r : Role} {c c' : Conn P} (h : ConnOK k f W r c) (hrun : c.status = .running) {rec : Record}
     (hc : Conn.headerCheck k f c rec = some c') : ConnOK k f W r c' := by
   unfold Conn.headerCheck at hc
   by_cases h1 : (if f.versCheckedOnlyWhenHave = true then c.haveVers else true) = true ∧ rec.vers ≠ k.vers
   · rw [if_pos h1] at hc
-    simp only [Option.some.injEq] at hc; rw [← hc]; exact failLocal_ok h _
+    simp only [Option.some.injEq] at hc; rw [← hc]; exact failLocal_ok h hrun _
   · rw [if_neg h1] at hc
     by_cases h2 : ¬ c.haveVers = true ∧ ((rec.typ ≠ k.rtAlert ∧ rec.typ ≠ k.rtHS) ∨ rec.vers ≥ 4096)
     · rw [if_pos h2] at hc
-      simp only [Option.some.injEq] at hc; rw [← hc]; exact ⟨h.reach, by intro hd; simp at hd⟩
+      simp only [Option.some.injEq] at hc; rw [← hc]
+      exact ⟨h.reach, by intro hd; simp at hd, fun hm => by simp [h.unmarked hrun hm]⟩
     · rw [if_neg h2] at hc
       by_cases h3 : rec.payload.length > k.maxCiphertext
       · rw [if_pos h3] at hc
-        simp only [Option.some.injEq] at hc; rw [← hc]; exact failLocal_ok h _
+        simp only [Option.some.injEq] at hc; rw [← hc]; exact failLocal_ok h hrun _
       · rw [if_neg h3] at hc; cases hc
+
+/-- the implicit cipher switch of the defect branch keeps the invariant (it is a `skip` move) -/
+theorem implicitSwitch_ok {r : Role} {c : Conn P} (h : ConnOK k f W r c) (hrun : c.status = .running) (rec : Record) :
+    ConnOK k f W r (Conn.implicitSwitch k f c rec) ∧ (Conn.implicitSwitch k f c rec).status = .running := by
+  unfold Conn.implicitSwitch
+  split
+  · refine ⟨⟨ReachR.skip h.reach, fun hd => ?_, fun hm => ?_⟩, hrun⟩
+    · simp [hrun] at hd
+    · simpa using h.mark hm
+  · exact ⟨h, hrun⟩
 
 theorem deliver_ok {r : Role} {c : Conn P} (h : ConnOK k f W r c) (rec : Record) :
     ConnOK k f W r (Conn.deliver k f W c rec) := by
@@ -160,11 +222,14 @@ theorem deliver_ok {r : Role} {c : Conn P} (h : ConnOK k f W r c) (rec : Record)
   · rename_i hrun
     have hrun' : c.status = .running := by simpa using hrun
     split
-    · rename_i c' hc; exact headerCheck_ok h hc
-    · split
-      · exact failLocal_ok h _
+    · rename_i c' hc; exact headerCheck_ok h hrun' hc
+    · obtain ⟨hi, hirun⟩ := implicitSwitch_ok h hrun' rec
+      simp only []
+      generalize Conn.implicitSwitch k f c rec = ci at hi hirun
+      split
+      · exact failLocal_ok hi hirun _
       · rename_i data seq _
-        exact dispatch_ok (c := { c with inSeq := seq }) ⟨h.reach, h.done⟩ hrun' _ _
+        exact dispatch_ok (c := { ci with inSeq := seq }) ⟨hi.reach, hi.done, hi.mark⟩ hirun _ _
 
 /-! ### the global run: whatever the attacker does -/
 
@@ -172,15 +237,20 @@ structure GlobalOK (k : Codes) (f : TFlags) (W : World P) (g : Global P) : Prop 
   c : ConnOK k f W .client g.c
   s : ConnOK k f W .server g.s
 
-theorem global_init_ok : GlobalOK k f W (Global.init k W) := ⟨init_ok _, init_ok _⟩
+theorem global_init_ok : GlobalOK k f W (Global.init k f W) := ⟨init_ok _, init_ok _⟩
+
+/-- closing an endpoint's transport changes nothing the invariant talks about -/
+theorem wbroken_ok {r : Role} {c : Conn P} (h : ConnOK k f W r c) (b : Bool) : ConnOK k f W r { c with wbroken := b } :=
+  ⟨h.reach, h.done, h.mark⟩
 
 theorem global_step_ok {att : Attacker} {g g' : Global P} (h : GlobalOK k f W g)
     (hs : Global.step k f W att g = some g') : GlobalOK k f W g' := by
   unfold Global.step at hs
+  simp only [] at hs
   split at hs
   · cases hs
-  · simp only [Option.some.injEq] at hs; rw [← hs]; exact ⟨deliver_ok h.c _, h.s⟩
-  · simp only [Option.some.injEq] at hs; rw [← hs]; exact ⟨h.c, deliver_ok h.s _⟩
+  · simp only [Option.some.injEq] at hs; rw [← hs]; exact ⟨deliver_ok (wbroken_ok h.c _) _, wbroken_ok h.s _⟩
+  · simp only [Option.some.injEq] at hs; rw [← hs]; exact ⟨wbroken_ok h.c _, deliver_ok (wbroken_ok h.s _) _⟩
 
 theorem global_run_ok (att : Attacker) : ∀ (n : Nat) (g : Global P), GlobalOK k f W g →
     GlobalOK k f W (Global.run k f W att n g)
@@ -191,5 +261,19 @@ theorem global_run_ok (att : Attacker) : ∀ (n : Nat) (g : Global P), GlobalOK 
     · exact h
     · rename_i g' hs
       exact global_run_ok att n g' (global_step_ok h hs)
+
+/-- the invariant rules out the two panics of `handshakeContext` -/
+theorem ConnOK.no_panic {r : Role} {c : Conn P} (h : ConnOK k f W r c) (hm : f.doneMarkedLast = true) :
+    c.panics = false := by
+  have := h.mark hm
+  unfold Conn.panics
+  split
+  · rename_i cls hst
+    simp [hst] at this
+    exact this
+  · rename_i hst
+    simp [hst] at this
+    simp [this]
+  · rfl
 
 end Gotlcp.Lemmas.Transcript
